@@ -49,10 +49,10 @@ def locate_one(values, val, issorted=False, tol=None, side='left'):
             if values.dtype.kind == 'u':
                 values = values.astype(float) # unsigned differences would wrap around
             dist = np.abs(values - val)
-            match = np.argmin(dist)
+            match = np.argmin(dist) if dist.size > 0 else None
         except TypeError as error:
             raise TypeError("`tol` parameter only valid for numeric axes")
-        if dist[match] > tol:
+        if match is None or dist[match] > tol:
             raise IndexError("Did not find element `{}` in the axis with `tol={}`".format(repr(val), repr(tol)))
 
     elif issorted:
